@@ -694,3 +694,156 @@ pub fn analyse(evs: &[Ev], meta: &Meta) -> Analysis {
     max_occupancy_bound: max_bound,
   }
 }
+
+// ------------------------------------------------------------------------------------------
+// Broadcast (spmc) histories of the single-threaded stepper: one sender handle whose values
+// carry increasing sequence numbers, so the send order is the id order. Every receiver must
+// obtain a strictly increasing run of the values that were really sent, starting at its start
+// position (a clone starts where its parent stood when the clone was made), without gaps; a
+// receiver that saw Disconnected / end-of-stream must have drained everything sent.
+// Values of cancelled sends may or may not have been sent (skipped gaps over them are fine).
+// ------------------------------------------------------------------------------------------
+pub fn analyse_broadcast(evs: &[Ev], meta: &Meta) -> Analysis {
+  use std::collections::{BTreeMap, BTreeSet};
+  let mut findings: Vec<Finding> = Vec::new();
+  let mut definite: BTreeSet<u64> = BTreeSet::new();
+  let mut never: BTreeSet<u64> = BTreeSet::new();
+  let mut offered: BTreeSet<u64> = BTreeSet::new();
+  let mut maybe = 0usize;
+  for e in evs.iter().filter(|e| e.form.is_send()) {
+    for v in &e.vals {
+      offered.insert(*v);
+    }
+    match e.out {
+      Out::Panicked | Out::Cancelled | Out::Open => {
+        // in-place batches hand the unsent tail back even when cancelled
+        if e.back_known && e.out == Out::Cancelled && matches!(e.form, Form::SendBatchMut) {
+          for v in &e.vals {
+            if e.back.contains(v) {
+              never.insert(*v);
+            } else {
+              definite.insert(*v);
+            }
+          }
+        } else {
+          maybe += e.vals.len();
+        }
+      }
+      _ => {
+        let n = if matches!(e.form, Form::Send | Form::TrySend) { (e.out == Out::Ok) as usize } else { e.n_ok as usize };
+        for (i, v) in e.vals.iter().enumerate() {
+          if i < n {
+            definite.insert(*v);
+          } else {
+            never.insert(*v);
+          }
+        }
+      }
+    }
+  }
+  // receivers: creation (parent, stamp), received run in completion order, end marker
+  struct Rx {
+    parent: Option<(u32, u64)>,
+    run: Vec<(u64, u64)>, // (ret stamp, id)
+    ended: Option<u64>,   // ret stamp of Disconnected / StreamEnd
+  }
+  let mut rxs: BTreeMap<u32, Rx> = BTreeMap::new();
+  let mut by_ret: Vec<&Ev> = evs.iter().filter(|e| e.side == Side::Rx && !e.is_open()).collect();
+  by_ret.sort_by_key(|e| e.ret);
+  for e in &by_ret {
+    rxs.entry(e.handle).or_insert(Rx { parent: None, run: vec![], ended: None });
+    if e.form == Form::Clone && e.out == Out::Ok {
+      rxs.entry(e.aux as u32).or_insert(Rx { parent: Some((e.handle, e.ret)), run: vec![], ended: None });
+    }
+    if e.form.is_recv() {
+      let r = rxs.get_mut(&e.handle).unwrap();
+      for v in &e.vals {
+        r.run.push((e.ret, *v));
+      }
+      if matches!(e.out, Out::Disconnected | Out::StreamEnd) && r.ended.is_none() {
+        r.ended = Some(e.ret);
+      }
+    }
+  }
+  let mut received = 0usize;
+  let handles: Vec<u32> = rxs.keys().copied().collect();
+  // position (last id consumed, exclusive lower bound for what follows) of handle h at stamp t
+  fn floor_at(rxs: &BTreeMap<u32, Rx>, h: u32, t: u64, depth: u32) -> Option<u64> {
+    let r = rxs.get(&h)?;
+    if let Some((_, id)) = r.run.iter().filter(|(ret, _)| *ret < t).last() {
+      return Some(*id);
+    }
+    match r.parent {
+      Some((p, at)) if depth < 16 => floor_at(rxs, p, at, depth + 1),
+      _ => None,
+    }
+  }
+  for h in handles {
+    let r = &rxs[&h];
+    received += r.run.len();
+    let start_floor: Option<u64> = match r.parent {
+      Some((p, at)) => floor_at(&rxs, p, at, 0),
+      None => None,
+    };
+    let mut prev: Option<u64> = start_floor;
+    for (_, id) in &r.run {
+      if !offered.contains(id) || (id >> 48) == (crate::val::CORRUPT_BASE >> 48) {
+        findings.push(Finding { prop: "C01", rule: "phantom".into(),
+          summary: format!("receiver {} obtained a value no sender offered (or a torn payload): {:#x}", h, id),
+          detail: json!({"receiver": h, "value": format!("{:#x}", id)}) });
+        continue;
+      }
+      if never.contains(id) {
+        findings.push(Finding { prop: "C01", rule: "failed-send-delivered".into(),
+          summary: format!("receiver {} obtained value {}:{} although the send reported it as not sent", h, id >> 32, id & 0xffff_ffff),
+          detail: json!({"receiver": h}) });
+      }
+      if let Some(p) = prev {
+        if *id <= p {
+          findings.push(Finding { prop: "C07", rule: "duplicate-or-reordered".into(),
+            summary: format!("receiver {} obtained {}:{} after {}:{} (not in send order / twice)", h, id >> 32, id & 0xffff_ffff, p >> 32, p & 0xffff_ffff),
+            detail: json!({"receiver": h}) });
+        }
+      }
+      let lo = prev.map(|p| p + 1).unwrap_or(0);
+      if let Some(missed) = definite.range(lo..*id).next() {
+        findings.push(Finding { prop: "C07", rule: "lost-value".into(),
+          summary: format!("receiver {} never obtained {}:{}, which was sent while it existed, but obtained the later {}:{}", h, missed >> 32, missed & 0xffff_ffff, id >> 32, id & 0xffff_ffff),
+          detail: json!({"receiver": h, "start_after": start_floor.map(|s| format!("{}:{}", s >> 32, s & 0xffff_ffff))}) });
+      }
+      prev = Some(*id);
+    }
+    if let Some(end) = r.ended {
+      let lo = prev.map(|p| p + 1).unwrap_or(0);
+      // values sent before the receiver reported the end and after its position
+      let sent_before_end: Vec<u64> = evs
+        .iter()
+        .filter(|e| e.form.is_send() && !e.is_open() && e.ret < end)
+        .flat_map(|e| e.vals.iter().copied())
+        .filter(|v| definite.contains(v) && *v >= lo)
+        .collect();
+      if let Some(m) = sent_before_end.first() {
+        findings.push(Finding { prop: "C04", rule: "disconnected-before-drained".into(),
+          summary: format!("receiver {} reported Disconnected although {}:{} had been sent to it and was never obtained", h, m >> 32, m & 0xffff_ffff),
+          detail: json!({"receiver": h}) });
+      }
+    }
+  }
+  for e in evs {
+    if e.out == Out::Panicked {
+      findings.push(Finding { prop: "C01", rule: format!("panic-in-{}", e.form.name()),
+        summary: format!("{} panicked inside the library: {}", e.form.name(), e.note.clone().unwrap_or_default()), detail: e.to_json() });
+    }
+  }
+  if findings.iter().any(|f| f.rule.starts_with("panic-in")) {
+    findings.retain(|f| f.rule.starts_with("panic-in"));
+  }
+  let mut h = vh_core::Fnv::default();
+  for e in evs {
+    h.u64(e.handle as u64 * 64 + e.form as u64);
+    h.u64(e.out as u64 * 1024 + e.vals.len() as u64);
+  }
+  let _ = meta;
+  Analysis { findings, overlapping: false, interleaving_sig: h.finish(), sent_ok: definite.len(), received, maybe,
+    premise_r3: false, max_occupancy_bound: 0 }
+}
